@@ -97,7 +97,10 @@ def _run(ev, work, thorough):
     hl, resl = D.export_histories(work, frames="FramesLong", maxops=2, ops="OpsAppend")
     hl = [h for h in hl if len(h[0]["groups"]) >= 11]
     ev.add_tlc("DatasetExport: appends to an 11-row-group dataset (part ids reach 10)", resl, histories=len(hl))
-    dh = dh + hl
+    hg, resg = D.export_histories(work, frames="FramesGap", maxops=3, ops="OpsAppend", partitioned="OnlyPartitioned")
+    hg = [h for h in hg if any(len(c) == 0 for r in h for c in (r.get("frame") or []))]
+    ev.add_tlc("DatasetExport: appends across an empty chunk (gap in the part ids)", resg, histories=len(hg))
+    dh = dh + hl + hg
     dres = D.run_replays(dh, work)
     dtraces = []
     for hid, r in enumerate(dres):
